@@ -348,6 +348,35 @@ func libCompileSearch(expr string, doc interface{}) (out libOut) {
 	return
 }
 
+var interveningDocs = []interface{}{nil, mustJSON(`{"a":{"a":[{"a":1,"q":"x"},{"a":[2,3],"q":null},[4,[5]],0],"q":{"a":"r","q":[1,2]}},"q":[[1,{"a":2}],[],"r",null,{"q":{"a":0}}],"b":[3,1,2],"c":"s","d":[["x"],[]],"nums":["a",1],"strs":[1,"a"]}`), []interface{}{[]interface{}{3.0, 1.0}, "s", map[string]interface{}{"a": "z"}}}
+
+// libCompileSearchTwice compiles once, searches doc, then searches a few unrelated
+// documents with the same compiled expression, then searches doc again: both
+// results are returned (a compiled expression must be history independent).
+func libCompileSearchTwice(expr string, doc interface{}) (first, again libOut) {
+	first.Panic = safely(func() {
+		c, err := jp.Compile(expr)
+		if err != nil {
+			first.Err = err
+			return
+		}
+		first.Compiled = true
+		first.Val, first.Err = c.Search(ref.DeepCopy(doc))
+		for _, d := range interveningDocs {
+			if p := safely(func() { _, _ = c.Search(ref.DeepCopy(d)) }); p != nil {
+				again.Panic = p
+				return
+			}
+		}
+		again.Compiled = true
+		again.Val, again.Err = c.Search(ref.DeepCopy(doc))
+	})
+	if first.Panic != nil && again.Panic == nil {
+		again.Panic = first.Panic
+	}
+	return
+}
+
 func show(v interface{}) string {
 	if ref.HasSpecial(v) {
 		return ref.Canon(v)
